@@ -192,13 +192,17 @@ func replaySQL(args []string) error {
 	fs := flag.NewFlagSet("replay-sql", flag.ExitOnError)
 	in := fs.String("in", "", "ndjson from Gen_Lib")
 	seed := fs.Int64("seed", 1, "seed")
-	dictKind := fs.String("dict", "nasty", "nasty | ws (values differing only in white space)")
+	dictKind := fs.String("dict", "nasty", "nasty | ws (values differing only in white space) | countnames (columns called count, COUNT, counts)")
 	schedFile := fs.String("sched", "", "ndjson from MC_Cursor: step orders of two result sets read at the same time")
 	fs.Parse(args)
 	rng := rand.New(rand.NewSource(*seed))
 	dict := identDict(rng, 4)
 	if *dictKind == "ws" {
 		dict = wsDict()
+	}
+	if *dictKind == "countnames" {
+		// column names that collide with the name of the count column (and near misses)
+		dict = vx.NewDict([]string{"COUNT", "count", "counts", "d"}, dict.Vals)
 	}
 	var scheds [][]int
 	if *schedFile != "" {
